@@ -807,9 +807,24 @@ impl Property for C20 {
                 out.push(Sc { uv_queries: q, ..sc.clone() });
             }
         }
-        // fewer faces, staying inside the scenario's class (disk stays a disk)
+        // fewer faces, staying inside the scenario's class (disk stays a disk): chunks first, then
+        // single faces that own a boundary edge ("ears"), which is what keeps a disk a disk
         let idx: Vec<usize> = (0..sc.mesh.f.len()).collect();
-        for keep in chunk_removals(&idx, 1).into_iter().take(80) {
+        let mut keeps: Vec<Vec<usize>> = chunk_removals(&idx, 1).into_iter().take(60).collect();
+        if sc.mesh.f.len() > 1 {
+            let counts = sc.mesh.edge_counts();
+            let ears: Vec<usize> = (0..sc.mesh.f.len())
+                .filter(|&i| {
+                    let f = sc.mesh.f[i];
+                    (0..3).any(|k| counts[&ekey(f[k], f[(k + 1) % 3])] == 1)
+                })
+                .take(60)
+                .collect();
+            for e in ears {
+                keeps.push(idx.iter().copied().filter(|&i| i != e).collect());
+            }
+        }
+        for keep in keeps {
             let m = M { v: sc.mesh.v.clone(), f: keep.iter().map(|&i| sc.mesh.f[i]).collect() }.compact();
             let ok = match sc.kind {
                 Kind::Reject => !is_disk(&m),
